@@ -452,6 +452,7 @@ class FakeSock:
         self.pending_accept = collections.deque()
         self.writable = True
         self.recv_error = None
+        self.send_error = None
 
     # socket API used by bromelia.transport
     def setblocking(self, b):
@@ -506,6 +507,8 @@ class FakeSock:
             raise OSError(9, "Bad file descriptor")
         if self.refused:
             raise ConnectionRefusedError(111, "Connection refused")
+        if self.send_error is not None:
+            raise self.send_error
         if not data:
             return 0
         n = len(data)
